@@ -10,21 +10,26 @@ from lib.core import zlit, zlist
 MANIFEST = {
     'text': 'Coq theorems over an executable model of PrimeFieldElement._sqrt/_is_sqr (p = 2; p = 3 mod 4 by exponentiation '
             'incl. the INV exponent (3p-5)/4; p = 1 mod 4 by Cipolla-Lehmer with the search for b and the X^((p+1)/2) ladder in '
-            'GF(p)[X]/(X^2-bX+a); legendre = the jacobi loop of gmpy.py): Fermat little theorem and Euler criterion for every '
-            'prime (proved, no hypothesis); for every prime p = 3 mod 4 and every square a: sqrt(a)^2 = a and sqrt(a,INV) is the '
-            'inverse of that root; sqrt(0) = 0 and sqrt(0,INV) raises ZeroDivisionError for every p; the Cipolla ladder computes '
-            'X^e in the quotient ring for every e (unbounded) and yields a square root under the norm hypothesis; '
-            'bounded-exhaustive (all primes p < 200, all a): sqrt(a)^2 = a for squares, INV inverse, is_sqr(a) <-> a is a square. '
-            'The model is compared with the real methods on all elements of 27 primes <= 257 and on boundary/random elements of '
-            '61/64-bit primes of both classes (legendre also for 127/255-bit primes).',
+            'GF(p)[X]/(X^2-bX+a); legendre = the jacobi loop of gmpy.py). Unbounded: Fermat little theorem for every prime '
+            '(proved via the permutation of units, no hypothesis; also for any abstract finite field with enumerated units); '
+            'a nonzero square has a^((p-1)/2) = 1; for EVERY prime p = 3 mod 4 and every nonzero square a: sqrt(a) reduced and '
+            'sqrt(a)^2 = a; for every nonzero a: sqrt(a,INV) * sqrt(a) = 1; sqrt(0) = 0 and sqrt(0,INV) raises '
+            'ZeroDivisionError for every p; p = 2. Bounded-exhaustive by vm_compute (bound in the statement: the 46 primes '
+            'below 200, all elements): is_sqr(a) <-> a is a square, sqrt(a)^2 = a for squares, INV is the inverse of the root '
+            '(this covers the Cipolla branch and the jacobi loop). The model is compared with the real methods on all elements '
+            'of 27 primes <= 257 and on boundary/random elements of 61/64-bit primes of both classes (legendre also for '
+            '127/255-bit primes).',
     'note': 'Coq model restricted to prime fields. Extension fields (Tonelli-Shanks; q = 1 and 3 mod 4) and binary fields '
             '(Frobenius) are covered by the implementation-level oracle only: is_sqr/sqrt/INV against brute-force squares on all '
-            'elements for q <= 2^16 (no Coq model of gfpx here). That gmpy.jacobi computes the Legendre symbol (quadratic '
-            'reciprocity) is NOT proved in general: is_sqr and the non-residue search of the Cipolla branch are verified by '
-            'computation for all primes p < 200 only (bound in the statements), and tested against Euler\'s criterion above. '
-            'The Cipolla branch for unbounded p is proved only relative to the explicit hypothesis X^(p+1) = a in the quotient '
-            'ring (Frobenius/norm), discharged by computation for p < 200. powmod = CPython pow is modelled, not verified.',
-    'technique': 'Coq proof (Fermat via permutation of units, Euler via root bound, ladder invariant) + bounded vm_compute + exhaustive/random correspondence + brute-force oracle on all field kinds',
+            'elements for q <= 4096 and 1500 sampled elements of GF(2^16) (no Coq model of gfpx here). PARTIAL / MISSING: '
+            '(1) the Cipolla-Lehmer branch (p = 1 mod 4) has no unbounded theorem (ladder invariant and the Frobenius/norm '
+            'argument not proved) - only the bounded theorem for p < 200 plus correspondence/oracle up to 255-bit primes; '
+            '(2) that gmpy.jacobi computes the Legendre symbol (quadratic reciprocity) is not proved - is_sqr is verified by '
+            'computation for p < 200 only and tested against Euler\'s criterion above; termination of the jacobi loop and of the '
+            'search for b within the model fuel is not proved (fuel exhaustion would surface as an error code in the '
+            'correspondence; none observed); (3) Euler\'s criterion converse (a^((p-1)/2) = 1 => square) not proved. '
+            'powmod = CPython pow is modelled, not verified.',
+    'technique': 'Coq proof (Fermat via permutation of units, exponent arithmetic) + bounded vm_compute over all primes < 200 + exhaustive/random correspondence + brute-force oracle on all field kinds',
 }
 
 ERR = {ZeroDivisionError: -1, ValueError: -2, TypeError: -3}
@@ -69,7 +74,7 @@ def run(ctx):
     ctx.rule = ('case = (field, element a): sqrt(a), sqrt(a, INV=True), is_sqr(a); all elements for primes <= 257 (both '
                 'classes mod 4, plus 2), for every extension/binary field of order <= 2^16; random squares and non-squares '
                 'for 61/64-bit primes; non-trivial = a nonzero')
-    ctx.explanation = ('Coq theorems (Fermat, Euler, exponentiation branch, ladder) over the executable prime-field model; '
+    ctx.explanation = ('Coq theorems (Fermat, exponentiation branch incl. INV, bounded-exhaustive p < 200) over the executable prime-field model; '
                        'model compared exactly with the real methods; brute-force-squares oracle on every field kind')
 
     def bad(sig, **kw):
@@ -80,7 +85,6 @@ def run(ctx):
     p61b = 2305843009213693921               # = 1 mod 4
     p64a = 18446744073709551557              # = 1 mod 4
     p64b = 18446744073709551427              # = 3 mod 4
-    p1024 = None
     big = [p61a, p61b, p64a, p64b, 2 ** 127 - 1, 2 ** 255 - 19]     # 2^255-19 = 1 mod 4 (5 mod 8)
     for pp in big:
         assert gmpy.is_prime(pp)
